@@ -1,7 +1,7 @@
 #!/bin/bash
 # usage: tools_mut.sh <patch> <check-id> [tier]   -- apply patch to /repo, run check, always revert
 set -u
-P="$1"; ID="$2"; TIER="${3:-quick}"
+P="$(realpath "$1")"; ID="$2"; TIER="${3:-quick}"
 cd /repo || exit 2
 if ! git diff --quiet; then echo "repo dirty"; exit 2; fi
 git apply "$P" || { echo "patch failed"; exit 2; }
